@@ -678,7 +678,7 @@ pub fn decode_regex(tape: &[u32]) -> (TP, Vec<char>) {
 }
 
 /// fixed regex patterns incl. ones that match the empty string
-fn regex_templates() -> Vec<Re> {
+pub fn regex_templates() -> Vec<Re> {
     let l = |c| Re::Lit(c);
     let cls = |a, b| Re::Class(vec![(a, b)], false);
     vec![
